@@ -236,7 +236,7 @@ def to_py(ast, chmap):
 # ---------------------------------------------------------------- generation / rendering
 
 PREC = {"alt": 0, "cat": 1, "star": 2, "sym": 3, "eps": 3}
-PLAIN = ["a", "b", "cd", "x1"]
+PLAIN = ["a", "b", "cd", "x1", "ab"]      # "ab" next to "a", "b": different words that spell the same text
 ESCAPED = ["|", "*", "+", ".", "(", ")", "$"]
 
 
